@@ -172,7 +172,30 @@ def check_history(case):
     return {"nt": nt, "classes": sorted(classes)}
 
 
+def simplify(case):
+    """resolve back-references, then drop one offer at a time, the truncate, the permutation"""
+    vs = _resolve(case["ops"])
+    plain = [{"v": v} for v in vs]
+    if any("re" in op for op in case["ops"]):
+        yield dict(case, ops=plain)
+    n = len(vs)
+    for i in range(n):
+        keep = [k for k in range(n) if k != i]
+        if not keep:
+            continue
+        remap = {k: j for j, k in enumerate(keep)}
+        t = case["trunc"]
+        yield dict(case, ops=[plain[k] for k in keep], perm=[remap[k] for k in case["perm"] if k in remap],
+                   trunc=None if t is None else dict(t, feats=t["feats"][:len(keep)] or [0.0]))
+    if case["trunc"] is not None:
+        yield dict(case, trunc=None)
+    if case["perm"] != list(range(n)):
+        yield dict(case, perm=list(range(n)))
+    if case.get("same_vector"):
+        yield dict(case, same_vector=False)
+
+
 CLAUSES = [
-    Clause("archive", history(30), check_history, quick=1500, thorough=6000, quick_shards=4),
-    Clause("archive-long", history(60), check_history, quick=200, thorough=1500, quick_shards=2),
+    Clause("archive", history(30), check_history, quick=1500, thorough=6000, quick_shards=4, simplify=simplify),
+    Clause("archive-long", history(60), check_history, quick=200, thorough=1500, quick_shards=2, simplify=simplify),
 ]
